@@ -218,7 +218,7 @@ def handleBoolStr (args obs : List String) : Verdict :=
     let toks : List Tok := codes.toList.filterMap fun c =>
       if c == 'f' then some Tok.fn_ else if c == '(' then some Tok.lp else if c == ')' then some Tok.rp
       else if c == '>' then some Tok.arrow else if c == 'b' then some (Tok.id boolId) else if c == 'u' then some (Tok.id 1)
-      else if c == ',' then some Tok.comma else if c == '&' then some Tok.amp else if c == 'e' then some (Tok.id 2) else none
+      else if c == ',' then some Tok.comma else if c == '&' || c == 'q' then some Tok.amp else if c == 'e' then some (Tok.id 2) else none
     if toks.length != codes.length then bad "codes" else
     let out := obs.headD "?"
     let m := if boolGate toks then "accept" else "sigpanic"
@@ -226,7 +226,7 @@ def handleBoolStr (args obs : List String) : Verdict :=
     -- the text the harness recorded for this code string (harness/hx/src/sigs.rs, same alphabet)
     let text := String.join (codes.toList.map fun c =>
       if c == 'f' then "fn" else if c == '(' then "(" else if c == ')' then ")" else if c == '>' then " -> "
-      else if c == 'b' then "bool" else if c == 'u' then "u8" else if c == ',' then ", " else if c == '&' then "&" else "é")
+      else if c == 'b' then "bool" else if c == 'u' then "u8" else if c == ',' then ", " else if c == '&' then "&" else if c == 'q' then "&'_ " else "é")
     Gen.withGen' (Gen.sigBool text out) <|
     { agree := out == m, propOk := out == want,
       branch := "boolstr" ++ (if want == "accept" then "+accept" else "+refuse"),
